@@ -47,12 +47,13 @@ type Call struct {
 
 // FakeLedger records writes and answers them from a failure plan.
 type FakeLedger struct {
-	mu     sync.Mutex
-	Name   string
-	Calls  []Call
-	Reads  int
-	Fail   func(n int, kind string) string // error class for the n-th write (0-based), "" = succeed
-	NextTx int64
+	mu       sync.Mutex
+	Name     string
+	Calls    []Call
+	Reads    int
+	Fail     func(n int, kind string) string // error class for the n-th write (0-based), "" = succeed
+	FailCall func(c Call) string             // alternative plan deciding from the call itself
+	NextTx   int64
 }
 
 func (f *FakeLedger) record(c Call) (string, int64) {
@@ -62,6 +63,9 @@ func (f *FakeLedger) record(c Call) (string, int64) {
 	n := len(f.Calls)
 	if f.Fail != nil {
 		c.Failed = f.Fail(n, c.Kind)
+	}
+	if f.FailCall != nil {
+		c.Failed = f.FailCall(c)
 	}
 	f.Calls = append(f.Calls, c)
 	id := f.NextTx
